@@ -269,6 +269,19 @@ def check(ctx):
                 else:
                     unknown.append(c)
                 continue
+            # the substituted name held verbatim (`X in creds['roles']`):
+            # equal as spelled is equal ignoring case, so a hit is a match;
+            # a miss says nothing
+            if isinstance(ce, ast.Compare) and len(ce.ops) == 1 and \
+                    isinstance(ce.ops[0], ast.In):
+                xn, x_is_x = is_x(ce.left)
+                key, how = roles_of(t, ce.comparators[0], creds_p,
+                                    sentinel_keys)
+                if xn is None and x_is_x and key is not None:
+                    keys.add((key, how))
+                    if c.pol:
+                        match = c
+                    continue
             key, how = roles_of(t, ce, creds_p, sentinel_keys)
             if key is not None:
                 # truthiness of the role list itself
